@@ -5,7 +5,7 @@ LEVEL = "exploration"
 
 
 def run(chk, b, tier):
-    n = 200 if tier == "quick" else 5000
+    n = 200 if tier == "quick" else 15000
 
     def nt(f):
         return ["objects>=4"] if f["objects"] >= 4 else []
